@@ -172,7 +172,7 @@ theorem trim_refines : ∀ (fuel : Nat) {h h' : Hist K}, Coherent h → trim fue
     simp only [trim, Except.ok.injEq] at hok
     subst hok; rfl
   | fuel + 1, h, h', hc, hok => by
-    unfold trim at hok
+    rw [trim_succ] at hok
     unfold trimRef
     split at hok
     · rename_i hlt
@@ -247,7 +247,8 @@ theorem bisectLeft_eq_insPos (v : K) : ∀ (bins : List (K × K)), One1 bins →
   | b :: rest, h1 => by
     have hb : ¬ b.2 < 1 := not_lt.mpr (h1 b (by simp))
     have ih := bisectLeft_eq_insPos v rest (fun x hx => h1 x (by simp [hx]))
-    unfold bisectLeft insPos at ih ⊢
+    rw [bisectLeft_def] at ih ⊢
+    unfold insPos at ih ⊢
     rw [List.takeWhile_cons, List.takeWhile_cons]
     by_cases hlt : b.1 < v
     · simp only [hlt, decide_true, Bool.true_or, if_true, List.length_cons, ih]
@@ -275,7 +276,7 @@ theorem locate_spec {bins : List (K × K)} {v : K} (hne : bins ≠ []) (hi : Inc
     ((locate bins v).1 = false → (locate bins v).2 = insPos v bins) ∧
     ((locate bins v).1 = true → (locate bins v).2 = bins.length - 1 ∧
       ∃ bl, bins.getLast? = some bl ∧ bl.1 ≤ v ∧ insPos v bins = if bl.1 < v then bins.length else bins.length - 1) := by
-  unfold locate
+  rw [locate_def]
   cases hh : bins.head? with
   | none => simp at hh; exact absurd hh hne
   | some b0 =>
@@ -375,90 +376,10 @@ theorem insertTrim_refines {h h' : Hist K} {v c : K} (hc : Coherent h) (hi : Inc
         rw [if_pos hlt] at hp
         rw [insertRef_eq, hp, List.getElem?_eq_none (le_refl _)]
   have := trim_refines _ (coherent_bumpBounds v c2) hok
+  rw [trimTurns_eq] at this
   rw [this]
   simp only [bumpBounds, updateRef, Hist.toR]
   rw [p2, hins]
-
-/-- **`update` refines the reference, except through the in-place shortcut**: a successful `update` on a
-coherent state with increasing centres and counts ≥ 1 either produces the reference's bins, or it went
-through `_trim_in_place` (the branch whose position argument — the new value's neighbour is the unique
-closest pair — is not proved; see design_notes/C13.md). -/
-theorem update_refines_partial {h h' : Hist K} {v c : K} (hc : Coherent h) (hi : Inc h.bins) (h1 : One1 h.bins)
-    (hlen : h.bins.length ≤ h.cap) (hok : update h v c = .ok h') :
-    h'.bins = (updateRef h.toR v c).bins ∨
-    ∃ hd ib, (hd = h ∨ computeDiffs h = .ok hd) ∧ 0 < ib ∧ trimInPlace hd v c ib = .ok h' := by
-  unfold update at hok
-  split at hok
-  · simp at hok
-  have key : (∀ vi fi, h.bins[(locate h.bins v).2]? = some (vi, fi) → vi ≠ v) →
-      afterHit h (locate h.bins v).1 (locate h.bins v).2 v c = .ok h' →
-      h'.bins = (updateRef h.toR v c).bins ∨
-      ∃ hd ib, (hd = h ∨ computeDiffs h = .ok hd) ∧ 0 < ib ∧ trimInPlace hd v c ib = .ok h' := by
-    intro hnohit ha
-    unfold afterHit at ha
-    split at ha
-    · obtain ⟨hd, hcd, ha⟩ := bind_eq_ok ha
-      have hh : (hd = h ∨ computeDiffs h = .ok hd) ∧ Coherent hd ∧ hd.bins = h.bins ∧ hd.cap = h.cap := by
-        split at hcd
-        · obtain ⟨a, b, _, _, e, _⟩ := coherent_computeDiffs hcd
-          exact ⟨Or.inr hcd, a, b, e⟩
-        · simp only [Except.ok.injEq] at hcd
-          subst hcd; exact ⟨Or.inl rfl, hc, rfl, rfl⟩
-      obtain ⟨hor, cd, bd, pd⟩ := hh
-      obtain ⟨r, hr, ha⟩ := bind_eq_ok ha
-      have hit : insertTrim hd (locate h.bins v).1 (locate h.bins v).2 v c = .ok h' →
-          h'.bins = (updateRef h.toR v c).bins := by
-        intro hx
-        have := insertTrim_refines (h := hd) (v := v) (c := c) cd (by rw [bd]; exact hi) (by rw [bd]; exact h1)
-          (by rw [bd]; exact hnohit) (by rw [bd]; exact hx)
-        rw [this]
-        simp only [updateRef, Hist.toR, bd, pd]
-      split at ha
-      · split at ha
-        · rename_i ib hib
-          exact Or.inr ⟨hd, ib, hor, hib, ha⟩
-        · exact Or.inl (hit ha)
-      · exact Or.inl (hit ha)
-    · exact Or.inl (insertTrim_refines hc hi h1 hnohit ha)
-  split at hok
-  · rename_i vi fi hb
-    have hb' : h.bins[(locate h.bins v).2]? = some (vi, fi) ∧ h.bins ≠ [] := by
-      split at hb
-      · rename_i hpos
-        exact ⟨hb, List.length_pos_iff.mp hpos⟩
-      · cases hb
-    split at hok
-    · rename_i he
-      left
-      simp only [Except.ok.injEq] at hok
-      subst hok
-      have hev : vi = v := (eqK_iff' vi v).mp he
-      simp only
-      rw [exactHit_refines hb'.2 hi h1 hb'.1 hev]
-      simp only [updateRef, Hist.toR]
-      rw [trimRef_noop]
-      have hl := insertRef_length_le v c h.bins
-      rw [← exactHit_refines (c := c) hb'.2 hi h1 hb'.1 hev, List.length_set]
-      exact hlen
-    · rename_i he
-      apply key _ hok
-      intro vi' fi' hb2
-      rw [hb'.1] at hb2
-      simp only [Option.some.injEq, Prod.mk.injEq] at hb2
-      rw [← hb2.1]
-      intro e
-      exact he ((eqK_iff' vi v).mpr e)
-  · rename_i hb
-    split at hok
-    · simp at hok
-    · rename_i hz
-      apply key _ hok
-      intro vi fi hb2
-      have : h.bins = [] := by
-        by_contra hne
-        exact hz (List.length_pos_iff.mpr hne)
-      rw [this] at hb2
-      simp at hb2
 
 /-! ## histories of the faithful machine -/
 
